@@ -151,6 +151,19 @@ mod imp {
             Outcome::Panic(m) => Outcome::Panic(m),
         }
     }
+    /// the checked `UninitVec::set` on an instrumented buffer: (Ok?, writes, faults)
+    pub fn checked_set(buf_len: usize, idx: usize) -> Outcome<(bool, u64, Vec<String>)> {
+        probe_reset();
+        let r = catch(|| {
+            let mut buf = <ProbeOut<f64> as Vec1<f64>>::uninit(buf_len);
+            buf.set(idx, 1.5).is_ok()
+        });
+        let log = probe_take();
+        match r {
+            Outcome::Ok(ok) => Outcome::Ok((ok, log.usets, log.faults)),
+            Outcome::Panic(m) => Outcome::Panic(m),
+        }
+    }
     fn probe_take_counts() -> u64 {
         let l = probe_take();
         l.usets
@@ -435,6 +448,27 @@ fn check_write(ctx: &mut Ctx, max_len: usize) {
     }
 }
 
+/// the checked slot write: Ok and exactly one write for idx < len, an error and no write otherwise
+fn check_set(ctx: &mut Ctx, max_len: usize) {
+    let fam = "checked-set";
+    for bl in 0..=max_len {
+        for idx in (0..=bl + 2).chain([usize::MAX]) {
+            ctx.states += 1;
+            ctx.fam(fam).states += 1;
+            ctx.transitions += 1;
+            ctx.nontrivial(fam, (bl * 1000 + idx.min(999)) as u64);
+            let got = checked_set(bl, idx);
+            ctx.eval(fam, hash_bytes(format!("{got:?}").as_bytes()));
+            let want = if idx < bl { (true, 1u64) } else { (false, 0) };
+            if !matches!(&got, Outcome::Ok((ok, writes, faults)) if (*ok, *writes) == want && faults.is_empty()) {
+                viol(ctx, "UninitVec::set", None, json!({"family": fam, "buffer_len": bl, "index": idx}), format!("(ok, writes) = {want:?}, no out-of-bounds write"), format!("{got:?}"));
+            } else {
+                ctx.traces += 1;
+            }
+        }
+    }
+}
+
 fn main() {
     let run = Run::from_args("C19");
     let bound = run.pick(5, 12);
@@ -458,6 +492,9 @@ fn main() {
     }
     if only.as_deref().map_or(true, |f| f == "write_trust_iter") {
         check_write(&mut ctx, max_len);
+    }
+    if only.as_deref().map_or(true, |f| f == "checked-set") {
+        check_set(&mut ctx, max_len);
     }
     if let Some(stored) = replay {
         std::process::exit(finish_replay(&run, &stored, ctx));
